@@ -244,7 +244,7 @@ def run(ctx, driver):
     ctx.rule = ("(a) recorder runs: the real AnalyticIntegrator with _update_step overridden by a term recorder, random spike maps (unsorted, duplicated, "
                 "coincident, at query times) x random op histories (get / enable / disable / reset, backwards and repeated queries) x both caching modes; "
                 "distinct = distinct (spike map, history, mode); non-trivial = at least one spike and two queries; "
-                "(b) numeric runs on analysed systems against a piecewise mpmath reference")
+                "(b) numeric runs on analysed systems against a piecewise mpmath reference; each also on the same dictionary (==) with sorted / reversed inner dictionaries; the caller's dictionary must be unmodified afterwards; a later integrator built from a merge with other parameter values must use those")
     rng = ctx.rng("hist")
     hists = [c["case"] for c in ctx.corpus() if "case" in c and "ops" in c["case"]]
     hists += [gen_history(rng) for _ in range(ctx.n(400, 12000))]
